@@ -112,19 +112,19 @@ func (c *FnCtx) evalGhost(fn *ssa.Function, args []Value, st *State, oldSt *Stat
 	if oldSt != nil && fnUsesOld(fn) {
 		c.oldVals = map[ssa.Instruction]Value{}
 		c.oldMode = 1
-		pre := &State{R: st.R, heap: map[string]*Term{}, alpha: st.alpha}
+		pre := &State{R: st.R, P: st.P, heap: map[string]*Term{}, alpha: st.alpha}
 		for k, v := range oldSt.heap {
 			pre.heap[k] = v
 		}
 		c.exec(fn, args, nil, pre)
-		st.R = pre.R
+		st.R, st.P = pre.R, pre.P
 		c.oldMode = 2
 	} else {
 		c.oldMode = 0
 	}
 	res, out := c.exec(fn, args, nil, st)
 	if out != nil {
-		st.R = out.R
+		st.R, st.P = out.R, out.P
 		st.heap = out.heap
 		st.alpha = out.alpha
 	}
@@ -302,16 +302,87 @@ func (fr *frame) autoVariant(li *loopInfo, st *State) {
 	if phi == nil || phi.Block() != h {
 		return
 	}
-	if ins, ok := bo.Y.(ssa.Instruction); ok && li.body[ins.Block()] {
+	i, ok1 := fr.regs[phi].(*Term)
+	if !ok1 {
 		return
 	}
-	i, ok1 := fr.regs[phi].(*Term)
-	n, ok2 := fr.operand(bo.Y, st).(*Term)
-	if !ok1 || !ok2 {
-		return
+	var n *Term
+	li.autoBoundV = nil
+	if ins, ok := bo.Y.(ssa.Instruction); ok && li.body[ins.Block()] {
+		// bound recomputed in the header (e.g. len(r.field)): evaluate it now and again at the back edge
+		if ins.Block() != h {
+			return
+		}
+		v, ok := fr.reEval(bo.Y, st, li, nil, 0)
+		if !ok {
+			return
+		}
+		n = v
+		li.autoBoundV = bo.Y
+	} else {
+		v, ok2 := fr.operand(bo.Y, st).(*Term)
+		if !ok2 {
+			return
+		}
+		n = v
 	}
 	li.autoPhi, li.autoBound, li.autoAdd = phi, n, add
 	li.dec0 = fr.c.f.Sub(n, fr.c.f.Add(i, fr.c.f.Int(add)))
+}
+
+// reEval evaluates a small pure expression rooted at v (loads, field addresses, len, arithmetic on header
+// phis) in state st; next, when non-nil, supplies the values of the header phis.
+func (fr *frame) reEval(v ssa.Value, st *State, li *loopInfo, next func(*ssa.Phi) Value, depth int) (*Term, bool) {
+	c := fr.c
+	if depth > 6 {
+		return nil, false
+	}
+	ins, isIns := v.(ssa.Instruction)
+	if !isIns || !li.body[ins.Block()] {
+		t, ok := fr.operand(v, st).(*Term)
+		return t, ok
+	}
+	switch x := v.(type) {
+	case *ssa.Phi:
+		if x.Block() == li.header {
+			if next != nil {
+				t, ok := next(x).(*Term)
+				return t, ok
+			}
+			t, ok := fr.regs[x].(*Term)
+			return t, ok
+		}
+	case *ssa.UnOp:
+		if x.Op.String() == "*" {
+			if fa, ok := x.X.(*ssa.FieldAddr); ok {
+				base, ok := fr.reEval(fa.X, st, li, next, depth+1)
+				if !ok {
+					return nil, false
+				}
+				stT := fa.X.Type().Underlying().(*types.Pointer).Elem()
+				si := c.structInfoOf(stT)
+				sf := &si.fields[fa.Field]
+				if sf.kind != 0 {
+					return nil, false
+				}
+				return c.load(st, c.fieldLV(si, sf, base)), true
+			}
+		}
+	case *ssa.Call:
+		if b, ok := x.Call.Value.(*ssa.Builtin); ok && b.Name() == "len" && len(x.Call.Args) == 1 {
+			a, ok := fr.reEval(x.Call.Args[0], st, li, next, depth+1)
+			if !ok {
+				return nil, false
+			}
+			switch x.Call.Args[0].Type().Underlying().(type) {
+			case *types.Slice:
+				return c.f.SlLen(a), true
+			case *types.Basic:
+				return c.f.SLen(a), true
+			}
+		}
+	}
+	return nil, false
 }
 
 func (fr *frame) obligeClause(st *State, kind string, cond *Term, cl *Clause, text string) {
@@ -324,67 +395,85 @@ func (fr *frame) obligeClause(st *State, kind string, cond *Term, cl *Clause, te
 	}
 }
 
-// dryRun executes the loop body once with everything havocked to learn the written heap components.
-// The result maps heap key -> list of written references (nil list = unknown/iteration dependent).
+// dryRun executes the loop body with the header phis havocked to learn which heap components the body
+// writes and where. Heap components found to be written are havocked too and the run is repeated until
+// the set is stable, so that addresses read from unwritten components stay loop-independent terms.
+// The result maps heap key -> list of written pre-existing references (nil list = iteration dependent).
 func (fr *frame) dryRun(li *loopInfo, entry *State) map[string][]*Term {
 	c := fr.c
 	f := c.f
-	c.dry++
-	savedLog := c.writeLog
-	c.writeLog = nil
-	savedRegs := fr.regs
-	savedEdge := fr.edge
-	savedRets := fr.rets
-	fr.regs = make(map[ssa.Value]Value, len(savedRegs))
-	for k, v := range savedRegs {
-		fr.regs[k] = v
-	}
-	fr.edge = map[[2]int]*State{}
-	marker := f.fresh
-	st := entry.clone()
-	for _, ins := range li.header.Instrs {
-		phi, ok := ins.(*ssa.Phi)
-		if !ok {
+	havoc := map[string]bool{}
+	var log []writeRec
+	var marker int
+	var dryAlpha0 *Term
+	for round := 0; round < 4; round++ {
+		c.dry++
+		savedLog := c.writeLog
+		c.writeLog = nil
+		savedRegs := fr.regs
+		savedEdge := fr.edge
+		savedRets := fr.rets
+		savedUnsup := c.unsup
+		fr.regs = make(map[ssa.Value]Value, len(savedRegs))
+		for k, v := range savedRegs {
+			fr.regs[k] = v
+		}
+		fr.edge = map[[2]int]*State{}
+		marker = f.fresh
+		st := entry.clone()
+		for _, ins := range li.header.Instrs {
+			phi, ok := ins.(*ssa.Phi)
+			if !ok {
+				break
+			}
+			if _, ok := c.sortOf(phi.Type()); ok {
+				fr.regs[phi] = c.freshValue(st, "dry."+phi.Name(), phi.Type())
+			}
+		}
+		for k := range havoc {
+			st.heap[k] = f.Fresh("dryH", c.heapSort[k])
+		}
+		st.alpha = f.Fresh("dryAlpha", SInt)
+		dryAlpha0 = st.alpha
+		c.assume(st, f.Le(entry.alpha, st.alpha))
+		var order []*ssa.BasicBlock
+		started := false
+		for _, b := range fr.order {
+			if b == li.header {
+				started = true
+			}
+			if started && li.body[b] {
+				order = append(order, b)
+			}
+		}
+		fr.runBlocks(order, st, li.body)
+		c.unsup = savedUnsup
+		log = c.writeLog
+		c.writeLog = savedLog
+		fr.regs = savedRegs
+		fr.edge = savedEdge
+		fr.rets = savedRets
+		c.dry--
+		grew := false
+		for _, w := range log {
+			if !havoc[w.key] {
+				havoc[w.key] = true
+				grew = true
+			}
+		}
+		if !grew {
 			break
 		}
-		if _, ok := c.sortOf(phi.Type()); ok {
-			fr.regs[phi] = c.freshValue(st, "dry."+phi.Name(), phi.Type())
-		}
 	}
-	for k, srt := range c.heapSort {
-		st.heap[k] = f.Fresh("dryH", srt)
-	}
-	st.alpha = f.Fresh("dryAlpha", SInt)
-	c.assume(st, f.Le(entry.alpha, st.alpha))
-	// order restricted to loop body, starting at header
-	var order []*ssa.BasicBlock
-	started := false
-	for _, b := range fr.order {
-		if b == li.header {
-			started = true
-		}
-		if started && li.body[b] {
-			order = append(order, b)
-		}
-	}
-	savedUnsup := c.unsup
-	fr.runBlocks(order, st, li.body)
-	c.unsup = savedUnsup
-	log := c.writeLog
-	c.writeLog = savedLog
-	fr.regs = savedRegs
-	fr.edge = savedEdge
-	fr.rets = savedRets
-	c.dry--
 	writes := map[string][]*Term{}
 	unknown := map[string]bool{}
 	for _, w := range log {
 		if unknown[w.key] {
 			continue
 		}
-		// references allocated inside the loop (relative to the dry alpha) are not pre-existing: skip
 		if c.dependsOnFreshAfter(w.ref, marker) {
-			if c.isAllocAfter(w.ref, st.alpha) {
+			// allocated inside the loop body (relative to the allocation counter at the loop head)?
+			if c.isAllocAfter(w.ref, dryAlpha0) {
 				if _, ok := writes[w.key]; !ok {
 					writes[w.key] = []*Term{}
 				}
@@ -405,7 +494,6 @@ func (fr *frame) dryRun(li *loopInfo, entry *State) map[string][]*Term {
 		}
 	}
 	if c.dry > 0 {
-		// propagate to the enclosing dry run
 		c.writeLog = append(c.writeLog, log...)
 	}
 	return writes
@@ -497,7 +585,16 @@ func (fr *frame) backEdge(li *loopInfo, from *ssa.BasicBlock, st *State) {
 	if li.autoPhi != nil && li.dec0 != nil {
 		nv, ok := next(li.autoPhi).(*Term)
 		if ok {
-			d := f.Sub(li.autoBound, f.Add(nv, f.Int(li.autoAdd)))
+			bound := li.autoBound
+			if li.autoBoundV != nil {
+				nb, ok2 := fr.reEval(li.autoBoundV, st, li, next, 0)
+				if !ok2 {
+					c.oblige(st, "variant", f.False(), c.e.pos(li.header.Instrs[0].Pos()), fmt.Sprintf("loop %d: bound of the counting loop cannot be re-evaluated", li.ordinal))
+					return
+				}
+				bound = nb
+			}
+			d := f.Sub(bound, f.Add(nv, f.Int(li.autoAdd)))
 			c.oblige(st, "variant", f.And(f.Le(f.Int(0), li.dec0), f.Lt(d, li.dec0)), c.e.pos(li.header.Instrs[0].Pos()), fmt.Sprintf("loop %d terminates (automatic variant bound - counter)", li.ordinal))
 		}
 		return
